@@ -279,9 +279,7 @@ def make_concurrent_body(spec):
                 a = op[1]
                 if op[0] == "deliver":
                     delivered.add(a)
-                    phys = 0
-                    while phys in ex._used_physical_qubit_addresses or phys in promised:
-                        phys += 1
+                    phys = ex._get_unused_physical_qubit()      # reserved by the executor's own helper
                     promised.add(phys)
                     ex._handle_epr_response(LinkLayerOKTypeK(type=ReturnType.OK_K, create_id=0, logical_qubit_id=phys, directionality_flag=1,
                                                              sequence_number=0, purpose_id=a, remote_node_id=1, goodness=0, goodness_time=0,
